@@ -146,8 +146,8 @@ theorem inv_evStep {env : Env} {s : State} (h : Inv env s) (e : Ev) : Inv env (e
 
 theorem keep {α} {l : List α} {P : α → Prop} : ∀ x ∈ l, x ∈ l ∨ P x := fun _ hx => Or.inl hx
 
-theorem inv_tokBegin {env : Env} {s : State} (h : Inv env s) (rid : Rid) (host tok : Str) (ch : Nat) :
-    Inv env (tokBegin s rid host tok ch).1 := by
+theorem inv_tokBegin {env : Env} {s : State} (h : Inv env s) (rid : Rid) (host tok : Str) (ch : Nat) (up : Option Inst) :
+    Inv env (tokBegin env s rid host tok ch up).1 := by
   unfold tokBegin
   split
   · exact h
@@ -156,7 +156,9 @@ theorem inv_tokBegin {env : Env} {s : State} (h : Inv env s) (rid : Rid) (host t
     simp only []
     split
     · exact inv_of_sub h (Nat.le_refl _) hn keep keep keep keep
-    · refine inv_of_sub h (Nat.le_refl _) hn keep keep ?_ keep
+    · split
+      · exact inv_of_sub h (Nat.le_refl _) hn keep keep keep keep
+      refine inv_of_sub h (Nat.le_refl _) hn keep keep ?_ keep
       intro p hp
       cases mem_setTok hp with
       | inl e =>
@@ -272,8 +274,8 @@ theorem inv_tokFinish {env : Env} {s : State} (h : Inv env s) (rid : Rid) : Inv 
 
 /-! ## authorization steps -/
 
-theorem inv_sarBegin {env : Env} {s : State} (h : Inv env s) (rid : Rid) (host : Str) (attrs : Attrs) (ch : Nat) :
-    Inv env (sarBegin s rid host attrs ch).1 := by
+theorem inv_sarBegin {env : Env} {s : State} (h : Inv env s) (rid : Rid) (host : Str) (attrs : Attrs) (ch : Nat) (up : Option Inst) :
+    Inv env (sarBegin env s rid host attrs ch up).1 := by
   unfold sarBegin
   split
   · exact h
@@ -282,7 +284,9 @@ theorem inv_sarBegin {env : Env} {s : State} (h : Inv env s) (rid : Rid) (host :
     simp only []
     split
     · exact inv_of_sub h (Nat.le_refl _) hn keep keep keep keep
-    · refine inv_of_sub h (Nat.le_refl _) hn keep keep keep ?_
+    · split
+      · exact inv_of_sub h (Nat.le_refl _) hn keep keep keep keep
+      refine inv_of_sub h (Nat.le_refl _) hn keep keep keep ?_
       intro p hp
       cases mem_setSar hp with
       | inl e =>
@@ -374,12 +378,12 @@ theorem inv_sarFinish {env : Env} {s : State} (h : Inv env s) (rid : Rid) : Inv 
 theorem inv_step {env : Env} {s : State} (h : Inv env s) (st : Step) : Inv env (step env s st).1 := by
   cases st with
   | ev e => exact inv_evStep h e
-  | tokBegin rid host tok ch => exact inv_tokBegin h rid host tok ch
+  | tokBegin rid host tok ch up => exact inv_tokBegin h rid host tok ch up
   | tokCache rid => exact inv_tokCache h rid
   | tokLookup rid => exact inv_tokLookup h rid
   | tokReview rid ch => exact inv_tokReview h rid ch
   | tokFinish rid => exact inv_tokFinish h rid
-  | sarBegin rid host attrs ch => exact inv_sarBegin h rid host attrs ch
+  | sarBegin rid host attrs ch up => exact inv_sarBegin h rid host attrs ch up
   | sarCache rid => exact inv_sarCache h rid
   | sarLookup rid => exact inv_sarLookup h rid
   | sarFinish rid => exact inv_sarFinish h rid
@@ -520,7 +524,7 @@ theorem tokFinish_out {env : Env} {s : State} (rid : Rid) :
   · rename_i p hf
     have hp := findTok_some hf
     split
-    · have key : ∀ ep ready, ∃ t, Out.tok ⟨rid, p.host, p.tok, some p.inst, (env.tokO p.inst p.tok s.clock).res, s.clock, .fresh, some ep, ready⟩ = .tok t ∧ TokOutOK env t ∧ TokFrom s t :=
+    · have key : ∀ ep ready, ∃ t, Out.tok ⟨rid, p.host, p.tok, some p.inst, p.upstream, (env.tokO p.inst p.tok s.clock).res, s.clock, .fresh, some ep, ready⟩ = .tok t ∧ TokOutOK env t ∧ TokFrom s t :=
         fun ep ready => ⟨_, rfl, ⟨rfl, p.inst, rfl, rfl⟩, ⟨p, hp.1, hp.2, rfl, rfl, rfl⟩⟩
       simp only []
       split
@@ -589,7 +593,7 @@ theorem sarFinish_out {env : Env} {s : State} (rid : Rid) :
   · rename_i p hf
     have hp := findSar_some hf
     split
-    · have key : ∃ t, Out.sar ⟨rid, p.host, p.attrs, some p.inst, (env.sarO p.inst (specOf p.attrs) s.clock).res, s.clock, .fresh, some p.ep, p.ready⟩ = .sar t ∧ SarOutOK env t ∧ SarFrom s t :=
+    · have key : ∃ t, Out.sar ⟨rid, p.host, p.attrs, some p.inst, p.upstream, (env.sarO p.inst (specOf p.attrs) s.clock).res, s.clock, .fresh, some p.ep, p.ready⟩ = .sar t ∧ SarOutOK env t ∧ SarFrom s t :=
         ⟨_, rfl, ⟨rfl, p.inst, rfl, rfl⟩, ⟨p, hp.1, hp.2, rfl, rfl, rfl⟩⟩
       simp only []
       split
@@ -723,8 +727,8 @@ theorem evStep_pend (s : State) (e : Ev) :
     (evStep s e).nextRid = s.nextRid ∧ (evStep s e).tokPend = s.tokPend ∧ (evStep s e).sarPend = s.sarPend := by
   cases e <;> simp only [evStep] <;> (try split) <;> (first | exact ⟨rfl, rfl, rfl⟩ | simp)
 
-theorem tokBegin_pend (s : State) (rid : Rid) (host tok : Str) (ch : Nat) :
-    TokPendStep s (tokBegin s rid host tok ch).1 ∧ SarPendStep s (tokBegin s rid host tok ch).1 := by
+theorem tokBegin_pend (env : Env) (s : State) (rid : Rid) (host tok : Str) (ch : Nat) (up : Option Inst) :
+    TokPendStep s (tokBegin env s rid host tok ch up).1 ∧ SarPendStep s (tokBegin env s rid host tok ch up).1 := by
   unfold tokBegin
   split
   · exact ⟨tps_same (Nat.le_refl _) rfl, sps_same (Nat.le_refl _) rfl⟩
@@ -733,13 +737,15 @@ theorem tokBegin_pend (s : State) (rid : Rid) (host tok : Str) (ch : Nat) :
     simp only []
     split
     · exact ⟨tps_same hn rfl, sps_same hn rfl⟩
-    · refine ⟨⟨hn, fun p' hp' => ?_⟩, sps_same hn rfl⟩
+    · split
+      · exact ⟨tps_same hn rfl, sps_same hn rfl⟩
+      refine ⟨⟨hn, fun p' hp' => ?_⟩, sps_same hn rfl⟩
       cases mem_setTok hp' with
       | inl e => subst e; exact Or.inr (Nat.le_of_not_lt hlt)
       | inr e => exact Or.inl ⟨p', e, rfl, rfl, rfl, rfl⟩
 
-theorem sarBegin_pend (s : State) (rid : Rid) (host : Str) (attrs : Attrs) (ch : Nat) :
-    TokPendStep s (sarBegin s rid host attrs ch).1 ∧ SarPendStep s (sarBegin s rid host attrs ch).1 := by
+theorem sarBegin_pend (env : Env) (s : State) (rid : Rid) (host : Str) (attrs : Attrs) (ch : Nat) (up : Option Inst) :
+    TokPendStep s (sarBegin env s rid host attrs ch up).1 ∧ SarPendStep s (sarBegin env s rid host attrs ch up).1 := by
   unfold sarBegin
   split
   · exact ⟨tps_same (Nat.le_refl _) rfl, sps_same (Nat.le_refl _) rfl⟩
@@ -748,7 +754,9 @@ theorem sarBegin_pend (s : State) (rid : Rid) (host : Str) (attrs : Attrs) (ch :
     simp only []
     split
     · exact ⟨tps_same hn rfl, sps_same hn rfl⟩
-    · refine ⟨tps_same hn rfl, ⟨hn, fun p' hp' => ?_⟩⟩
+    · split
+      · exact ⟨tps_same hn rfl, sps_same hn rfl⟩
+      refine ⟨tps_same hn rfl, ⟨hn, fun p' hp' => ?_⟩⟩
       cases mem_setSar hp' with
       | inl e => subst e; exact Or.inr (Nat.le_of_not_lt hlt)
       | inr e => exact Or.inl ⟨p', e, rfl, rfl, rfl, rfl⟩
@@ -862,12 +870,12 @@ theorem step_pend (env : Env) (s : State) (st : Step) :
   | ev e =>
     obtain ⟨h1, h2, h3⟩ := evStep_pend s e
     exact ⟨tps_same (Nat.le_of_eq h1.symm) h2, sps_same (Nat.le_of_eq h1.symm) h3⟩
-  | tokBegin rid host tok ch => exact tokBegin_pend s rid host tok ch
+  | tokBegin rid host tok ch up => exact tokBegin_pend env s rid host tok ch up
   | tokCache rid => exact tokCache_pend env s rid
   | tokLookup rid => exact tokLookup_pend s rid
   | tokReview rid ch => exact tokReview_pend s rid ch
   | tokFinish rid => exact tokFinish_pend env s rid
-  | sarBegin rid host attrs ch => exact sarBegin_pend s rid host attrs ch
+  | sarBegin rid host attrs ch up => exact sarBegin_pend env s rid host attrs ch up
   | sarCache rid => exact sarCache_pend s rid
   | sarLookup rid => exact sarLookup_pend s rid
   | sarFinish rid => exact sarFinish_pend env s rid
@@ -877,39 +885,43 @@ theorem step_pend (env : Env) (s : State) (st : Step) :
 theorem clientFor_nextRid (s : State) (n : Rid) (host : Str) (ch : Nat) :
     clientFor { s with nextRid := n } host ch = clientFor s host ch := rfl
 
-theorem tokBegin_out (s : State) (rid : Rid) (host tok : Str) (ch : Nat) :
-    ∀ o ∈ (tokBegin s rid host tok ch).2, s.nextRid ≤ rid ∧ ∃ k, clientFor s host ch = .error k ∧
-      o = .tok ⟨rid, host, tok, mgrGet s.mgr host, .error k, s.clock, .none, none, []⟩ := by
+theorem tokBegin_out (env : Env) (s : State) (rid : Rid) (host tok : Str) (ch : Nat) (up : Option Inst) :
+    ∀ o ∈ (tokBegin env s rid host tok ch up).2, s.nextRid ≤ rid ∧ ∃ t, o = .tok t ∧ t.rid = rid := by
   unfold tokBegin
   split
   · intro o ho; cases ho
   · rename_i hlt
     simp only []
-    rw [clientFor_nextRid]
     split
-    · rename_i k hk
-      intro o ho
+    · intro o ho
       simp only [List.mem_singleton] at ho
       subst ho
-      exact ⟨Nat.le_of_not_lt hlt, k, hk, rfl⟩
-    · intro o ho; cases ho
+      exact ⟨Nat.le_of_not_lt hlt, _, rfl, rfl⟩
+    · split
+      · intro o ho
+        simp only [List.mem_singleton] at ho
+        subst ho
+        exact ⟨Nat.le_of_not_lt hlt, _, rfl, rfl⟩
+      · intro o ho; cases ho
 
-theorem sarBegin_out (s : State) (rid : Rid) (host : Str) (attrs : Attrs) (ch : Nat) :
-    ∀ o ∈ (sarBegin s rid host attrs ch).2, s.nextRid ≤ rid ∧ ∃ k, clientFor s host ch = .error k ∧
-      o = .sar ⟨rid, host, attrs, mgrGet s.mgr host, sarErr k, s.clock, .none, none, []⟩ := by
+theorem sarBegin_out (env : Env) (s : State) (rid : Rid) (host : Str) (attrs : Attrs) (ch : Nat) (up : Option Inst) :
+    ∀ o ∈ (sarBegin env s rid host attrs ch up).2, s.nextRid ≤ rid ∧ ∃ t, o = .sar t ∧ t.rid = rid := by
   unfold sarBegin
   split
   · intro o ho; cases ho
   · rename_i hlt
     simp only []
-    rw [clientFor_nextRid]
     split
-    · rename_i k hk
-      intro o ho
+    · intro o ho
       simp only [List.mem_singleton] at ho
       subst ho
-      exact ⟨Nat.le_of_not_lt hlt, k, hk, rfl⟩
-    · intro o ho; cases ho
+      exact ⟨Nat.le_of_not_lt hlt, _, rfl, rfl⟩
+    · split
+      · intro o ho
+        simp only [List.mem_singleton] at ho
+        subst ho
+        exact ⟨Nat.le_of_not_lt hlt, _, rfl, rfl⟩
+      · intro o ho; cases ho
 
 /-- every token answer a step gives is either the refusal of a `tokBegin` with a fresh id, or the answer to a
     pending request, and then it is what the invariant promises -/
@@ -917,10 +929,10 @@ theorem step_tok_out {env : Env} {s : State} (h : Inv env s) (st : Step) (t : To
     (ht : Out.tok t ∈ (step env s st).2) : (TokOutOK env t ∧ TokFrom s t) ∨ s.nextRid ≤ t.rid := by
   cases st with
   | ev e => cases ht
-  | tokBegin rid host tok ch =>
-    obtain ⟨hn, k, _, e⟩ := tokBegin_out s rid host tok ch _ ht
+  | tokBegin rid host tok ch up =>
+    obtain ⟨hn, t', e, hr⟩ := tokBegin_out env s rid host tok ch up _ ht
     cases e
-    exact Or.inr hn
+    exact Or.inr (hr ▸ hn)
   | tokCache rid =>
     have : (step env s (.tokCache rid)).2 = [] := tokCache_out rid
     rw [this] at ht; cases ht
@@ -933,8 +945,8 @@ theorem step_tok_out {env : Env} {s : State} (h : Inv env s) (st : Step) (t : To
   | tokFinish rid =>
     obtain ⟨t', e, h1, h2⟩ := tokFinish_out rid _ ht
     cases e; exact Or.inl ⟨h1, h2⟩
-  | sarBegin rid host attrs ch =>
-    obtain ⟨_, k, _, e⟩ := sarBegin_out s rid host attrs ch _ ht
+  | sarBegin rid host attrs ch up =>
+    obtain ⟨_, t', e, _⟩ := sarBegin_out env s rid host attrs ch up _ ht
     cases e
   | sarCache rid =>
     have : (step env s (.sarCache rid)).2 = [] := sarCache_out rid
@@ -950,8 +962,8 @@ theorem step_sar_out {env : Env} {s : State} (h : Inv env s) (st : Step) (t : Sa
     (ht : Out.sar t ∈ (step env s st).2) : (SarOutOK env t ∧ SarFrom s t) ∨ s.nextRid ≤ t.rid := by
   cases st with
   | ev e => cases ht
-  | tokBegin rid host tok ch =>
-    obtain ⟨_, k, _, e⟩ := tokBegin_out s rid host tok ch _ ht
+  | tokBegin rid host tok ch up =>
+    obtain ⟨_, t', e, _⟩ := tokBegin_out env s rid host tok ch up _ ht
     cases e
   | tokCache rid =>
     have : (step env s (.tokCache rid)).2 = [] := tokCache_out rid
@@ -965,10 +977,10 @@ theorem step_sar_out {env : Env} {s : State} (h : Inv env s) (st : Step) (t : Sa
   | tokFinish rid =>
     obtain ⟨t', e, _⟩ := tokFinish_out rid _ ht
     cases e
-  | sarBegin rid host attrs ch =>
-    obtain ⟨hn, k, _, e⟩ := sarBegin_out s rid host attrs ch _ ht
+  | sarBegin rid host attrs ch up =>
+    obtain ⟨hn, t', e, hr⟩ := sarBegin_out env s rid host attrs ch up _ ht
     cases e
-    exact Or.inr hn
+    exact Or.inr (hr ▸ hn)
   | sarCache rid =>
     have : (step env s (.sarCache rid)).2 = [] := sarCache_out rid
     rw [this] at ht; cases ht
@@ -1118,7 +1130,7 @@ theorem sarJudge_of_ok {env : Env} {t : SarOut} {c : Inst} (hok : SarOutOK env t
       rw [h7] at hne ⊢
       exact decideStatus_err_deny _ hne
     · simp only [Bool.true_eq_false, if_false, h1, Option.isSome_none, Bool.false_eq_true]
-      refine ⟨st, h3, status, h5, h7, ?_⟩
+      refine Or.inr ⟨st, h3, status, h5, h7, ?_⟩
       show t.time ≤ st + sarTTL env.cfg status
       rw [← h6]; exact h4
 
@@ -1150,27 +1162,39 @@ mutual
     | .ev e, r, h => by
       unfold runMacro
       exact runOK_app h _
-    | .tok hostport tok ch1 ch2 mid1 mid2, r, h => by
+    | .tok hostport tok ch1 ch2 bound mid0 mid1 mid2, r, h => by
       unfold runMacro
       simp only []
-      have h3 := runOK_app (runOK_app (runOK_app (runOK_app h (.ev (.tick 1)))
-        (.tokBegin (r.app env (.ev (.tick 1))).s.nextRid (hostWithoutPort hostport) tok ch1))
-        (.tokCache (r.app env (.ev (.tick 1))).s.nextRid)) (.tokLookup (r.app env (.ev (.tick 1))).s.nextRid)
+      have h0 := runOK_app h (.ev (.tick 1))
       split
-      · exact h3
-      · have h4 := runOK_app (runOK_macros env mid1 _ h3) (.tokReview (r.app env (.ev (.tick 1))).s.nextRid ch2)
-        split
-        · exact h4
-        · exact runOK_app (runOK_macros env mid2 _ h4) _
-    | .sar hostport attrs ch mid, r, h => by
+      · exact h0
+      · split
+        · apply runOK_app; apply runOK_app; apply runOK_app
+          exact runOK_macros env mid0 _ h0
+        · split
+          · apply runOK_app
+            apply runOK_macros env mid1
+            apply runOK_app; apply runOK_app; apply runOK_app
+            exact runOK_macros env mid0 _ h0
+          · apply runOK_app
+            apply runOK_macros env mid2
+            apply runOK_app
+            apply runOK_macros env mid1
+            apply runOK_app; apply runOK_app; apply runOK_app
+            exact runOK_macros env mid0 _ h0
+    | .sar hostport attrs ch bound mid0 mid, r, h => by
       unfold runMacro
       simp only []
-      have h3 := runOK_app (runOK_app (runOK_app (runOK_app h (.ev (.tick 1)))
-        (.sarBegin (r.app env (.ev (.tick 1))).s.nextRid (hostWithoutPort hostport) attrs ch))
-        (.sarCache (r.app env (.ev (.tick 1))).s.nextRid)) (.sarLookup (r.app env (.ev (.tick 1))).s.nextRid)
+      have h0 := runOK_app h (.ev (.tick 1))
       split
-      · exact h3
-      · exact runOK_app (runOK_macros env mid _ h3) _
+      · exact h0
+      · split
+        · apply runOK_app; apply runOK_app; apply runOK_app
+          exact runOK_macros env mid0 _ h0
+        · apply runOK_app
+          apply runOK_macros env mid
+          apply runOK_app; apply runOK_app; apply runOK_app
+          exact runOK_macros env mid0 _ h0
   theorem runOK_macros (env : Env) : ∀ (ms : List Macro) (r : Run), RunOK env r → RunOK env (runMacros env r ms)
     | [], r, h => by
       unfold runMacros
@@ -1240,9 +1264,9 @@ theorem tokReview_finish_answers {env : Env} {s : State} {p : TokPend} {cid : Op
   simp only [runSteps, step, List.append_nil]
   have hrev : tokReview s p.rid ch =
       (match clientFor s p.host ch with
-       | .error k => (delTok s p.rid, [tokOutErr s p.rid p.host p.tok (some p.inst) k])
+       | .error k => (delTok s p.rid, [tokOutErr s p.rid p.host p.tok (some p.inst) p.upstream k])
        | .ok (cur, e) =>
-         if cur ≠ p.inst then (delTok s p.rid, [tokOutErr s p.rid p.host p.tok (some p.inst) .moved])
+         if cur ≠ p.inst then (delTok s p.rid, [tokOutErr s p.rid p.host p.tok (some p.inst) p.upstream .moved])
          else (setTok s { p with stage := .inFlight cid e.name (readyNames s p.inst) }, [])) := by
     unfold tokReview
     simp only [hf, hst]
@@ -1299,7 +1323,7 @@ theorem tokLookup_rest_answers {env : Env} {s : State} {p : TokPend} (ch : Nat)
       exact hmiss
     | some e =>
       by_cases hlive : s.clock < e.expiry
-      · have hl : tokLookup s p.rid = (delTok s p.rid, [.tok ⟨p.rid, p.host, p.tok, some p.inst, e.ans.res, s.clock, .cached e.storedAt e.expiry, none, []⟩]) := by
+      · have hl : tokLookup s p.rid = (delTok s p.rid, [.tok ⟨p.rid, p.host, p.tok, some p.inst, p.upstream, e.ans.res, s.clock, .cached e.storedAt e.expiry, none, []⟩]) := by
           unfold tokLookup
           simp only [hf, hc, hg, hlive, if_true]
         rw [hsplit _ _ hl]
@@ -1372,7 +1396,7 @@ theorem sarLookup_rest_answers {env : Env} {s : State} {p : SarPend} {cid : Cach
     exact hmiss
   | some e =>
     by_cases hlive : s.clock ≤ e.expiry
-    · have hl : sarLookup s p.rid = (delSar s p.rid, [.sar ⟨p.rid, p.host, p.attrs, some p.inst, decideStatus e.st, s.clock, .cached e.storedAt e.expiry, none, []⟩]) := by
+    · have hl : sarLookup s p.rid = (delSar s p.rid, [.sar ⟨p.rid, p.host, p.attrs, some p.inst, p.upstream, decideStatus e.st, s.clock, .cached e.storedAt e.expiry, none, []⟩]) := by
         unfold sarLookup
         simp only [hf, hst, hg, hlive, if_true]
       rw [hsplit _ _ hl, (sar_noop (env := env) (findSar_delSar s p.rid)).2.2]
@@ -1408,38 +1432,56 @@ theorem sarCache_rest_answers {env : Env} {s : State} {p : SarPend}
 
 /-! ## the first step of a request, computed -/
 
-theorem tokBegin_of_err {s : State} {rid : Rid} {host tok : Str} {ch : Nat} {k : ErrKind}
+theorem tokBegin_of_err {env : Env} {s : State} {rid : Rid} {host tok : Str} {ch : Nat} {up : Option Inst} {k : ErrKind}
     (hn : s.nextRid ≤ rid) (hk : clientFor s host ch = .error k) :
-    tokBegin s rid host tok ch =
-      ({ s with nextRid := rid + 1 }, [.tok ⟨rid, host, tok, mgrGet s.mgr host, .error k, s.clock, .none, none, []⟩]) := by
+    tokBegin env s rid host tok ch up =
+      ({ s with nextRid := rid + 1 }, [.tok ⟨rid, host, tok, mgrGet s.mgr host, up, .error k, s.clock, .none, none, []⟩]) := by
   unfold tokBegin
   rw [if_neg (Nat.not_lt_of_le hn)]
   simp only [clientFor_nextRid, hk]
   rfl
 
-theorem tokBegin_of_ok {s : State} {rid : Rid} {host tok : Str} {ch : Nat} {c : Inst} {e : Endpoint}
-    (hn : s.nextRid ≤ rid) (hk : clientFor s host ch = .ok (c, e)) :
-    tokBegin s rid host tok ch = (setTok { s with nextRid := rid + 1 } ⟨rid, host, tok, c, .resolved⟩, []) := by
+theorem tokBegin_of_bound {env : Env} {s : State} {rid : Rid} {host tok : Str} {ch : Nat} {up : Option Inst} {c : Inst} {e : Endpoint}
+    (hn : s.nextRid ≤ rid) (hk : clientFor s host ch = .ok (c, e)) (hb : boundElsewhere env.cfg.bindTok up c = true) :
+    tokBegin env s rid host tok ch up =
+      ({ s with nextRid := rid + 1 }, [.tok ⟨rid, host, tok, some c, up, .error .moved, s.clock, .none, none, []⟩]) := by
   unfold tokBegin
   rw [if_neg (Nat.not_lt_of_le hn)]
-  simp only [clientFor_nextRid, hk]
+  simp only [clientFor_nextRid, hk, hb, if_true]
+  rfl
 
-theorem sarBegin_of_err {s : State} {rid : Rid} {host : Str} {attrs : Attrs} {ch : Nat} {k : ErrKind}
+theorem tokBegin_of_ok {env : Env} {s : State} {rid : Rid} {host tok : Str} {ch : Nat} {up : Option Inst} {c : Inst} {e : Endpoint}
+    (hn : s.nextRid ≤ rid) (hk : clientFor s host ch = .ok (c, e)) (hb : boundElsewhere env.cfg.bindTok up c = false) :
+    tokBegin env s rid host tok ch up = (setTok { s with nextRid := rid + 1 } ⟨rid, host, tok, c, up, .resolved⟩, []) := by
+  unfold tokBegin
+  rw [if_neg (Nat.not_lt_of_le hn)]
+  simp only [clientFor_nextRid, hk, hb, Bool.false_eq_true, if_false]
+
+theorem sarBegin_of_err {env : Env} {s : State} {rid : Rid} {host : Str} {attrs : Attrs} {ch : Nat} {up : Option Inst} {k : ErrKind}
     (hn : s.nextRid ≤ rid) (hk : clientFor s host ch = .error k) :
-    sarBegin s rid host attrs ch =
-      ({ s with nextRid := rid + 1 }, [.sar ⟨rid, host, attrs, mgrGet s.mgr host, sarErr k, s.clock, .none, none, []⟩]) := by
+    sarBegin env s rid host attrs ch up =
+      ({ s with nextRid := rid + 1 }, [.sar ⟨rid, host, attrs, mgrGet s.mgr host, up, sarErr k, s.clock, .none, none, []⟩]) := by
   unfold sarBegin
   rw [if_neg (Nat.not_lt_of_le hn)]
   simp only [clientFor_nextRid, hk]
   rfl
 
-theorem sarBegin_of_ok {s : State} {rid : Rid} {host : Str} {attrs : Attrs} {ch : Nat} {c : Inst} {e : Endpoint}
-    (hn : s.nextRid ≤ rid) (hk : clientFor s host ch = .ok (c, e)) :
-    sarBegin s rid host attrs ch =
-      (setSar { s with nextRid := rid + 1 } ⟨rid, host, attrs, c, e.name, readyNames { s with nextRid := rid + 1 } c, .resolved⟩, []) := by
+theorem sarBegin_of_bound {env : Env} {s : State} {rid : Rid} {host : Str} {attrs : Attrs} {ch : Nat} {up : Option Inst} {c : Inst} {e : Endpoint}
+    (hn : s.nextRid ≤ rid) (hk : clientFor s host ch = .ok (c, e)) (hb : boundElsewhere env.cfg.bindSar up c = true) :
+    sarBegin env s rid host attrs ch up =
+      ({ s with nextRid := rid + 1 }, [.sar ⟨rid, host, attrs, some c, up, sarErr .moved, s.clock, .none, none, []⟩]) := by
   unfold sarBegin
   rw [if_neg (Nat.not_lt_of_le hn)]
-  simp only [clientFor_nextRid, hk]
+  simp only [clientFor_nextRid, hk, hb, if_true]
+  rfl
+
+theorem sarBegin_of_ok {env : Env} {s : State} {rid : Rid} {host : Str} {attrs : Attrs} {ch : Nat} {up : Option Inst} {c : Inst} {e : Endpoint}
+    (hn : s.nextRid ≤ rid) (hk : clientFor s host ch = .ok (c, e)) (hb : boundElsewhere env.cfg.bindSar up c = false) :
+    sarBegin env s rid host attrs ch up =
+      (setSar { s with nextRid := rid + 1 } ⟨rid, host, attrs, c, up, e.name, readyNames { s with nextRid := rid + 1 } c, .resolved⟩, []) := by
+  unfold sarBegin
+  rw [if_neg (Nat.not_lt_of_le hn)]
+  simp only [clientFor_nextRid, hk, hb, Bool.false_eq_true, if_false]
 
 theorem ownReady_of_ok {s : State} {host : Str} {ch : Nat} {c : Inst} {e : Endpoint}
     (hk : clientFor s host ch = .ok (c, e)) : mgrGet s.mgr host = some c ∧ ownReady s host = true := by
